@@ -22,7 +22,12 @@ META = {
             'driver to the value; every out-of-range value (integer edges +-1, duration components beyond int32/int64, '
             'time outside a day, dates outside uint32, decimal scales beyond int32, floats beyond float32, non-ASCII '
             'ascii, wrong vector dimension, oversize tuples, >65535 elements or bytes in v1/v2 collections), alone and '
-            'as an element of list/tuple/map/vector, must raise.',
+            'as an element of list/tuple/map/vector, must raise. Vint boundary layer (same encode/decode oracles): every unsigned '
+            'vint edge 2^(7k)-1, 2^(7k), 2^(7k)+1 and 2^(7k-1)-1, 2^(7k-1), 2^(7k-1)+1 for k=1..9 plus whole-byte edges, as the zig-zag '
+            'image of each duration component (alone in each position, same-sign pairs in adjacent positions, all three equal), and as the '
+            'serialized size (k<=3: up to 2^21+1 bytes) of an element of vector<E, 1..3> for 11 variable-width element kinds E (text incl. '
+            'two-byte characters, ascii, varchar, blob, varint, decimal, tuple, list, map, UDT, nested vector) in every position; '
+            'the vector size writer/reader itself at every edge up to 2^31-1.',
     'note': 'The reference is cross-checked against the fixed vectors of tests/unit/test_marshalling.py and test_types.py '
             'and protocol-spec examples (vt.spec.values.selftest, run at the start of every run). Vector element widths '
             'are compared only where Cassandra 5\'s fixed length is unambiguous.',
@@ -38,6 +43,68 @@ def tuplify(x):
 
 def tstr(t):
     return V.cql_name(t)
+
+
+class _Long(object):
+    """Stand-in for a long str/bytes in messages (repr of a 2 MiB element is not informative)."""
+    def __init__(self, x):
+        self.x = x
+
+    def __repr__(self):
+        if isinstance(self.x, int):
+            return '<int of %d bits>' % self.x.bit_length()
+        return '<%s of length %d: %r...>' % (type(self.x).__name__, len(self.x), self.x[:6])
+
+
+def _abbr(x):
+    if isinstance(x, (str, bytes)) and len(x) > 300:
+        return _Long(x)
+    if type(x) is int and x.bit_length() > 1024:
+        return _Long(x)
+    if type(x) is list:
+        return [_abbr(i) for i in x]
+    if type(x) is tuple:
+        return tuple(_abbr(i) for i in x)
+    return x
+
+
+def short(x, n=300):
+    return B.short(_abbr(x), n)
+
+
+def _pv_at(where, pv):
+    """Layout version of a part found by B.localise below the containers `where`."""
+    for k in where:
+        if k != 'vector':
+            pv = max(3, pv)
+    return pv
+
+
+def _size_prefix_mismatch(t, v, pv):
+    """For t = vector<variable-width E, n>: the first element whose unsigned-vint size prefix in the
+    driver's bytes is not the one Cassandra writes -> (index, size, driver prefix, reference prefix)."""
+    t = V.unwrap(t)
+    if t[0] != 'vector' or V.fixed_len(t[1]) is not None:
+        return None
+    try:
+        db = B.driver_type(t).to_binary(B.to_driver(t, v), pv)
+        pos = 0
+        for i, x in enumerate(v):
+            eb = V.encode(t[1], x, pv)
+            pre = V.uvint_encode(len(eb))
+            if db[pos:pos + len(pre)] != pre:
+                try:
+                    end = V.uvint_decode(db, pos)[1]
+                except V.RefError:
+                    end = pos + len(pre)
+                return (i, len(eb), bytes(db[pos:end]), pre)
+            pos += len(pre)
+            if db[pos:pos + len(eb)] != eb:
+                return None
+            pos += len(eb)
+    except Exception:
+        return None
+    return None
 
 
 def _bytes_differ(st, sv, spv):
@@ -87,7 +154,7 @@ def check_encode(part, t, T, vi, v, dv, pv, form, want, case):
             lt, lv, where = t, v, ()
         part.violation('C02/encode-raises/%s/%s' % (lt[0], type(e).__name__),
                        'to_binary(%s, pv=%d) of %s raised %r for a value Cassandra encodes as %s (smallest failing part: %s %s inside %s)' % (
-                           B.short(dv), pv, tstr(t), e, want[:64].hex(), lt[0], B.short(lv, 120), '/'.join(where) or 'top level'), case)
+                           short(dv), pv, tstr(t), e, want[:64].hex(), lt[0], short(lv, 120), '/'.join(where) or 'top level'), case)
         part.outcome((t[0], 'encode-raises'))
         return
     if b == want:
@@ -98,15 +165,21 @@ def check_encode(part, t, T, vi, v, dv, pv, form, want, case):
     except Exception:
         lt, lv, where = t, v, ()
     lt = V.unwrap(lt)
+    extra = ''
+    mism = _size_prefix_mismatch(lt, lv, _pv_at(where, pv))
     if lt[0] in V.SCALARS:
         tail = '%s/value' % lt[0]
     elif _direct_null(lt, lv):
         tail = '%s/null-element-length' % lt[0]
+    elif mism is not None:
+        tail = 'vector/element-size-vint'
+        extra = '; element %d is %d bytes long: driver wrote the size as %s, Cassandra writes %s' % (
+            mism[0], mism[1], mism[2].hex(), mism[3].hex())
     else:
         tail = '%s/framing' % lt[0]
     part.violation('C02/bytes/%s' % tail,
-                   '%s value %s (given as %s, pv=%d): driver wrote %s, Cassandra writes %s (smallest differing part: %s %s inside %s)' % (
-                       tstr(t), B.short(v), form, pv, b[:96].hex(), want[:96].hex(), tstr(lt), B.short(lv, 120), '/'.join(where) or 'top level'),
+                   '%s value %s (given as %s, pv=%d): driver wrote %s, Cassandra writes %s (smallest differing part: %s %s inside %s%s)' % (
+                       tstr(t), short(v), form, pv, b[:96].hex(), want[:96].hex(), tstr(lt), short(lv, 120), '/'.join(where) or 'top level', extra),
                    case)
     part.outcome((t[0], 'bytes-differ', tail))
     return b
@@ -122,7 +195,7 @@ def check_decode(part, t, T, v, pv, want_bytes, case, what='reference'):
             lt, lv, where = t, v, ()
         part.violation('C02/decode-raises/%s/%s' % (lt[0], type(e).__name__),
                        'from_binary(%s, pv=%d) of %s raised %r; Cassandra means %s (smallest failing part: %s %s inside %s)' % (
-                           want_bytes[:64].hex(), pv, tstr(t), e, B.short(v), lt[0], B.short(lv, 120), '/'.join(where) or 'top level'), case)
+                           want_bytes[:64].hex(), pv, tstr(t), e, short(v), lt[0], short(lv, 120), '/'.join(where) or 'top level'), case)
         part.outcome((t[0], 'decode-raises'))
         return
     d = B.diff(t, v, B.from_driver(t, r))
@@ -132,11 +205,39 @@ def check_decode(part, t, T, v, pv, want_bytes, case, what='reference'):
     tail, text = B.describe(d)
     part.violation('C02/decode/%s' % tail,
                    '%s bytes %s (pv=%d) mean %s to Cassandra but decode to %s: %s' % (
-                       tstr(t), want_bytes[:96].hex(), pv, B.short(v), B.short(r), text), case)
+                       tstr(t), want_bytes[:96].hex(), pv, short(v), short(r), text), case)
     part.outcome((t[0], 'decode-differs', tail))
 
 
+def _compare(part, t, T, vi, v, pv, decode_only, forms, case, key):
+    """The oracles of one (type, value, version) case; False when the reference has no bytes for it."""
+    try:
+        want = V.encode(t, v, pv)
+    except V.RefUnknown:
+        part.count('skipped_width_not_decided')
+        return False
+    except V.RefUnrepresentable:
+        part.count('skipped_null_element_before_v3')
+        return False
+    b = None
+    for form, fv in forms:
+        part.count('evaluations')
+        part.count('encode_comparisons')
+        b = check_encode(part, t, T, vi, v, fv, pv, form, want, dict(case, form=form))
+    part.count('evaluations')
+    part.count('decode_comparisons')
+    check_decode(part, t, T, v, pv, want, dict(case, form='decode'))
+    if len(want) > 0 and vi > 0:
+        part.mark_nontrivial(hash(key))
+    if vi == 4:
+        part.sample({'type': tstr(t), 'value': short(v, 120), 'pv': pv, 'reference_bytes': want[:48].hex(),
+                     'driver_bytes': None if b is None else b[:48].hex()}, limit=2)
+    return True
+
+
 def run_chunk(args):
+    if args[0] == 'vint':
+        return run_vint_chunk(args[1:])
     thorough, types, only = args
     import logging
     logging.disable(logging.CRITICAL)
@@ -157,28 +258,98 @@ def run_chunk(args):
             for pv in PVS:
                 if only is not None and pv != only['pv']:
                     continue
-                case = {'type': t, 'value_index': vi, 'pv': pv, 'thorough': thorough, 'cql_type': tstr(t), 'value': B.short(v, 400)}
+                case = {'type': t, 'value_index': vi, 'pv': pv, 'thorough': thorough, 'cql_type': tstr(t), 'value': short(v, 400)}
+                _compare(part, t, T, vi, v, pv, decode_only, forms, case, (t, vi, pv))
+    return part
+
+
+# ------------------------------------------------------------------------------- vint boundaries
+VINT_SCALARS = (('duration',),)
+
+
+def vint_types():
+    return list(VINT_SCALARS) + G.vint_vector_types()
+
+
+def vint_values(t, thorough):
+    """[(value, protocol versions)] of the vint boundary layer for type t."""
+    if t == ('duration',):
+        return [(v, PVS) for v in G.vint_durations()]
+    return G.vint_vector_values(t, thorough)
+
+
+def run_vint_chunk(args):
+    """Same three oracles as the grid, over the values whose vints sit on a length boundary: duration
+    components on every zig-zag vint edge, vectors with an element of every boundary size."""
+    thorough, types, only = args
+    import logging
+    logging.disable(logging.CRITICAL)
+    part = Part()
+    for t in types:
+        T = B.driver_type(t)
+        part.count('vint_layer_types')
+        for vi, (v, pvs) in enumerate(vint_values(t, thorough)):
+            if only is not None and vi != only['value_index']:
+                continue
+            dv = B.to_driver(t, v)
+            forms = [('canonical', dv)] + B.alt_forms(t, v)
+            for pv in pvs:
+                if only is not None and pv != only['pv']:
+                    continue
+                case = {'layer': 'vint', 'type': t, 'value_index': vi, 'pv': pv, 'thorough': thorough, 'cql_type': tstr(t),
+                        'value': short(v, 400)}
                 try:
-                    want = V.encode(t, v, pv)
-                except V.RefUnknown:
-                    part.count('skipped_width_not_decided')
-                    continue
-                except V.RefUnrepresentable:
-                    part.count('skipped_null_element_before_v3')
-                    continue
-                b = None
-                for form, fv in forms:
-                    part.count('evaluations')
-                    part.count('encode_comparisons')
-                    b = check_encode(part, t, T, vi, v, fv, pv, form, want, dict(case, form=form))
-                part.count('evaluations')
-                part.count('decode_comparisons')
-                check_decode(part, t, T, v, pv, want, dict(case, form='decode'))
-                if len(want) > 0 and vi > 0:
-                    part.mark_nontrivial(hash((t, vi, pv)))
-                if vi == 4:
-                    part.sample({'type': tstr(t), 'value': B.short(v, 120), 'pv': pv, 'reference_bytes': want[:48].hex(),
-                                 'driver_bytes': None if b is None else b[:48].hex()}, limit=2)
+                    if _compare(part, t, T, vi + 1, v, pv, False, forms, case, ('vint', t, vi, pv)):
+                        part.count('vint_boundary_cases')
+                except V.RefRangeError:
+                    part.count('skipped_element_over_65535_bytes_before_v3')
+    return part
+
+
+def size_writer_edges():
+    """Element sizes are Java ints: every vint edge up to 2^31-1."""
+    return [u for u in G.vint_edges(31, 1, 9)]
+
+
+def run_size_writer(only=None):
+    """The writer/reader VectorType uses for element sizes (the names cassandra.cqltypes binds), at every
+    boundary size up to 2^31-1: elements above 2 MiB are not materialised by run_vint_chunk."""
+    from vt.core import HarnessError
+    import cassandra.cqltypes as C
+    pack, unpack = getattr(C, 'uvint_pack', None), getattr(C, 'uvint_unpack', None)
+    if pack is None or unpack is None:
+        raise HarnessError('cassandra.cqltypes no longer binds uvint_pack/uvint_unpack: find the vector size writer again')
+    part = Part()
+    for u in size_writer_edges():
+        if only is not None and u != only:
+            continue
+        want = V.uvint_encode(u)
+        part.count('evaluations', 2)
+        part.count('size_writer_probes', 2)
+        try:
+            got = pack(u)
+        except Exception as e:
+            got = e
+        if got != want:
+            part.violation('C02/bytes/vector/element-size-vint',
+                           'vector element size %d: the driver\'s size writer gives %s, Cassandra writes %s' % (
+                               u, got.hex() if isinstance(got, bytes) else repr(got), want.hex()), {'size_writer': u})
+            part.outcome(('size-writer', 'bytes-differ'))
+        else:
+            part.outcome(('size-writer', 'bytes-equal'))
+        try:
+            back = unpack(want + b'\x00')
+        except Exception as e:
+            back = e
+        if back != (u, len(want)):
+            part.violation('C02/decode/vector/element-size-vint',
+                           'vector element size prefix %s means %d (%d bytes) to Cassandra, the driver\'s size reader gives %r' % (
+                               want.hex(), u, len(want), back), {'size_writer': u})
+            part.outcome(('size-writer', 'decode-differs'))
+        else:
+            part.outcome(('size-writer', 'decode-equal'))
+        if u >= 128:
+            part.mark_nontrivial(hash(('size-writer', u)))
     return part
 
 
@@ -343,21 +514,36 @@ def run(ctx):
     types = ctx.rotate([t for lvl in levels for t in lvl])
     n = 4 if ctx.quick else ctx.nproc * 4      # the quick grid takes ~3 s on one core: a few workers beat 16 forks
     chunks = [(thorough, types[i::n], None) for i in range(n)]
-    for part in ctx.pmap(run_chunk, [c for c in chunks if c[1]]):
+    vtypes = ctx.rotate(vint_types())
+    m = 6 if ctx.quick else ctx.nproc * 2
+    vchunks = [('vint', thorough, vtypes[i::m], None) for i in range(m)]
+    for part in ctx.pmap(run_chunk, [c for c in chunks if c[1]] + [c for c in vchunks if c[2]]):
         ctx.merge(part)
     ctx.merge(run_ranges())
+    ctx.merge(run_size_writer())
+    ctx.cov['vint_layer'] = {
+        'unsigned_edges_64bit': len(G.vint_edges(64)), 'durations': len(G.vint_durations()),
+        'vector_types': len(G.vint_vector_types()), 'element_sizes': [s for s in G.vint_edges(32, 1, G.VINT_MAX_K) if s <= (1 << 22)],
+        'size_writer_edges': len(size_writer_edges())}
     ctx.cov['type_trees_per_level'] = [len(l) for l in levels]
     ctx.cov['protocol_versions'] = list(PVS)
     ctx.cov['rule'] = ('every type tree of the grid (levels %s) x every generated value x 8 protocol versions: one encode comparison '
                        'per accepted input form + one decode comparison; %d scalar range probes x %d contexts x 8 versions + %d '
-                       'structural probes; non-trivial = distinct (type, value, version) with a non-empty encoding other than the '
-                       'first (ordinary) value of the type, and every range probe that raised' % (
-                           [len(l) for l in levels], len(range_cases()), len(CONTEXTS), len(structural_cases())))
+                       'structural probes; vint layer: %d durations (every zig-zag edge 2^(7k)/2^(7k-1) +-1, k=1..9, whole-byte edges, alone in each '
+                       'component, same-sign pairs in adjacent components) x 8 versions, %d vector types (11 variable-width element kinds x '
+                       'dimension 1..3) x every element size on an edge up to 2^21+1 x positions (sizes above the kind\'s threshold, 2^15 for most: alone and '
+                       'last of two, versions 4 and 5 in the quick tier), %d direct size-writer/reader probes up to 2^31-1; non-trivial = '
+                       'distinct (type, value, version) with a non-empty encoding other than the first (ordinary) value of the type, every vint-layer '
+                       'case, every range probe that raised, every size-writer probe >= 128' % (
+                           [len(l) for l in levels], len(range_cases()), len(CONTEXTS), len(structural_cases()),
+                           len(G.vint_durations()), len(G.vint_vector_types()), 2 * len(size_writer_edges())))
     ctx.cov['exhaustive'] = True
     ctx.assume('sets and maps are handed to the driver in the order Cassandra\'s comparator gives them (the server re-sorts bound '
                'collections; the driver writes its argument in iteration order) - ordering itself is not compared')
     ctx.assume('null elements of list/set/map have no encoding before protocol v3: not generated for v1/v2')
     ctx.assume('vector element widths not decided by the reference (tinyint, smallint, date, time elements) are skipped, counted in skipped_width_not_decided')
+    ctx.assume('vector elements above 2^21+1 bytes are not materialised: for sizes up to 2^31-1 (element sizes are Java ints) the size '
+               'writer/reader bound in cassandra.cqltypes (uvint_pack/uvint_unpack) is compared with the reference directly')
     ctx.assume('Cassandra never emits non-minimal vints or varints; such encodings are not generated for the decode direction')
     ctx.assume('validity rules that are not ranges are not probed: mixed-sign durations, UDT values with surplus fields, inet spellings accepted by inet_aton')
     ctx.assume('legacy zero-length ("empty") values of non-text types are not generated')
@@ -366,6 +552,10 @@ def run(ctx):
 def replay(ctx, data):
     if 'range_index' in data:
         part = run_ranges(only=data['range_index'])
+    elif 'size_writer' in data:
+        part = run_size_writer(only=data['size_writer'])
+    elif data.get('layer') == 'vint':
+        part = run_chunk(('vint', bool(data['thorough']), [tuplify(data['type'])], data))
     else:
         part = run_chunk((bool(data['thorough']), [tuplify(data['type'])], data))
     for fp, what, _ in part.violations:
